@@ -1187,6 +1187,12 @@ class Engine:
             self.run_inits()
             self.call(FuncV(entry), [])
             self.stats['completed'] = self.stats.get('completed', 0) + 1
+            rl = self.P.g.get('reached', [])
+            seen = self.stats.setdefault('sampled_labels', set())
+            if rl and len(self.stats['samples']) < 4 and rl[-1] not in seen:
+                ok, m = self.check(full=True)        # a complete input of a path that ran to the end of the harness
+                if ok:
+                    seen.add(rl[-1]); self.stats['samples'].append(dict(reached=rl[-1], inputs=self.script(m)))
         except PathEnd:
             pass
         except RecursionError:
